@@ -75,6 +75,18 @@ def run(ctx):
           "fn f(a: int) -> int { return (+ a 1) }\nshadow f {\n    assert (== (f 1 2) 2)\n}\nfn main() -> int {\n    (println (f 1))\n    return 0\n}\nshadow main { assert (== 1 1) }\n"),
          ("arity", "call through a function-typed parameter",
           "fn inc(a: int) -> int { return (+ a 1) }\nshadow inc { assert (== (inc 1) 2) }\nfn app(g: fn(int) -> int, v: int) -> int {\n    return (g v v)\n}\nshadow app { assert (== 1 1) }\nfn main() -> int {\n    (println (app inc 1))\n    return 0\n}\nshadow main { assert (== 1 1) }\n")]
+    # values the checker cannot type by itself - an element of an array that is a call result - in every position that has an
+    # expected type; rule violations in the initialiser of a top-level constant, followed by well-typed functions
+    SC = "fn scores() -> array<int> {\n    return [10, 20, 30]\n}\nshadow scores { assert (== (array_length (scores)) 3) }\nfn banner(title: string) -> int {\n    return (str_length title)\n}\nshadow banner { assert (== (banner \"ab\") 2) }\n"
+    MAINT = "fn main() -> int {\n%s    return 0\n}\nshadow main { assert (== 1 1) }\n"
+    W += [("argument-type", "argument is (at <call> i) of the wrong element type", SC + MAINT % "    (println (banner (at (scores) 0)))\n"),
+          ("return-type", "returned value is (at <call> i) of the wrong element type", SC + "fn pick() -> string {\n    return (at (scores) 1)\n}\nshadow pick { assert (== 1 1) }\n" + MAINT % "    (println (pick))\n"),
+          ("let-type", "initialiser is (at <call> i) of the wrong element type", SC + MAINT % "    let s: string = (at (scores) 2)\n    (println s)\n"),
+          ("operand-type", "operand is (array_get <call> i) of the wrong element type", SC + MAINT % "    let b: bool = (and true (array_get (scores) 0))\n    (println b)\n")]
+    for k, (rule, init) in enumerate([("operand-type", "(< limit \"20\")"), ("operand-type", "(and limit true)"), ("operand-type", "(== limit \"10\")"), ("operand-type", "(not limit)")]):
+        W.append((rule, "top-level constant initialiser %s" % init,
+                  "let limit: int = 10\nlet strict: bool = %s\nfn clamp(n: int) -> int {\n    if (> n limit) {\n        return limit\n    }\n    return n\n}\nshadow clamp { assert (== (clamp 50) 10) }\n" % init
+                  + MAINT % "    if strict {\n        (println \"strict\")\n    } else {\n        (println \"lax\")\n    }\n"))
     for rule, what, text in W:
         cases.append(("witness", rule, what, text))
     try:
